@@ -144,9 +144,10 @@ def sw_cut(x, order=3):
             return K(1)
         if v.n is node_of(K(-1)):
             return K(-1)
+        # one function symbol per order: a route that drops or changes the configured order yields a different symbol
         if dag._lead_neg(v.n):
-            return -Sym(dag.uf("sw", [dag.neg(v.n)]))
-        return Sym(dag.uf("sw", [v.n]))
+            return -Sym(dag.uf(f"sw{int(order)}", [dag.neg(v.n)]))
+        return Sym(dag.uf(f"sw{int(order)}", [v.n]))
     if isinstance(x, np.ndarray):
         out = np.empty(x.shape, dtype=object)
         for idx in np.ndindex(*x.shape):
@@ -157,13 +158,15 @@ def sw_cut(x, order=3):
 
 def sw_contract(e, nodes):
     """range / strict monotonicity / fixed points for every sw atom occurring in `nodes`."""
-    atoms = [n for n in dag.walk(nodes) if n.op == "uf" and n.args[0] == "sw"]
+    atoms = [n for n in dag.walk(nodes) if n.op == "uf" and n.args[0].startswith("sw")]
     for a in atoms:
         t, v = Sym(a.args[1][0]), Sym(a)
         e.assume((~((t >= -1) & (t <= 1))) | ((v >= -1) & (v <= 1)))
         e.assume((~(v == 1)) | (t == 1), (~(v == -1)) | (t == -1), (~(t == 1)) | (v == 1), (~(t == -1)) | (v == -1))
         e.assume((~(t > 0)) | (v > 0), (~(t < 0)) | (v < 0))
     for a, b in itertools.combinations(atoms, 2):
+        if a.args[0] != b.args[0]:
+            continue
         ta, tb, va, vb = Sym(a.args[1][0]), Sym(b.args[1][0]), Sym(a), Sym(b)
         e.assume((~(ta < tb)) | (va < vb), (~(ta > tb)) | (va > vb), (~(ta == tb)) | (va == vb))
     return atoms
@@ -186,7 +189,7 @@ class real_switch_func:
 REAL_SWITCH = [None]
 
 
-def make_replay(natom, npts, order, what):
+def make_replay(natom, npts, order, what, elements=None):
     def replay(m):
         bk, hf = _mods()
         with unpatched(bk), real_switch_func():
@@ -194,14 +197,20 @@ def make_replay(natom, npts, order, what):
             g = lambda n, d: float(m.get(n, d))
             A = np.array([[g(f"A{i}_{a}", rng.normal() * 1.5) for a in range(3)] for i in range(natom)])
             P = np.array([[g(f"p{j}_{a}", rng.normal() * 1.5) for a in range(3)] for j in range(npts)])
-            nums = np.array(ELEMENTS[natom])
+            nums = np.array(elements or ELEMENTS[natom])
             b = bk.BeckeWeights(order=order)
+            import warnings
+            warnings.simplefilter("ignore")
             W = np.array([b.compute_atom_weight(P, A, nums, k) for k in range(natom)])
             info = dict(atoms=A.tolist(), atnums=nums.tolist(), points=P.tolist(), weights=W.tolist())
             if what == "sum":
                 return bool(np.any(np.abs(W.sum(axis=0) - 1) > 1e-10)), info
             if what == "range":
                 return bool(np.any(W < -1e-12) or np.any(W > 1 + 1e-12)), info
+            if what == "nuclei":
+                Wn = np.array([b.compute_atom_weight(A, A, nums, k) for k in range(natom)])
+                info.update(weights_at_nuclei=Wn.tolist())
+                return bool(np.any(np.abs(Wn - np.eye(natom)) > 1e-10) or np.any(~np.isfinite(Wn))), info
             if what == "history":
                 A2 = A.copy()
                 b2 = bk.BeckeWeights(order=order)
@@ -231,7 +240,7 @@ def make_replay(natom, npts, order, what):
     return replay
 
 
-def job_main(ctx: Ctx, natom, npts, order, with_nuclei=True):
+def job_main(ctx: Ctx, natom, npts, order, with_nuclei=True, elements=None):
     bk, hf = _mods()
     e = ctx.engine
     metric = Metric(e)
@@ -248,7 +257,7 @@ def job_main(ctx: Ctx, natom, npts, order, with_nuclei=True):
             P[j, a] = real(f"p{j}_{a}")
     for k in range(nuc):          # evaluation points sitting exactly on nuclei
         P[npts + k] = A[k]
-    nums = np.array(ELEMENTS[natom])
+    nums = np.array(elements or ELEMENTS[natom])
     ntot = npts + nuc
     ctx.bounds.update(dict(atoms=natom, atnums=nums.tolist(), points=npts, nuclei_as_points=nuc, order=order))
     key = f"becke:N={natom}"
@@ -260,7 +269,7 @@ def job_main(ctx: Ctx, natom, npts, order, with_nuclei=True):
     assert len(paths) == 1, "weights are branch-free"
     p = paths[0]
     ctx.paths += 1
-    Rsum, Rrng, Rrt = make_replay(natom, npts, order, "sum"), make_replay(natom, npts, order, "range"), make_replay(natom, npts, order, "routes")
+    Rsum, Rrng, Rrt = make_replay(natom, npts, order, "sum", elements), make_replay(natom, npts, order, "range", elements), make_replay(natom, npts, order, "routes", elements)
     if p.exc is not None:
         ctx.fail("compute_atom_weight returns", f"{type(p.exc).__name__}: {str(p.exc)[:160]}", key=key + ":raises", replay=Rsum, model={})
         return
@@ -299,7 +308,7 @@ def job_main(ctx: Ctx, natom, npts, order, with_nuclei=True):
                 ctx.holds(f"point {j}: 0 <= w_{k} <= 1", (W[k][j] >= 0) & (W[k][j] <= 1), (), replay=Rrng, key=key + ":range")
     for k in range(nuc):
         for a_ in range(natom):
-            ctx.eq(f"w_{a_}(nucleus {k}) == {int(a_ == k)}", W[a_][npts + k], K(int(a_ == k)), (), replay=Rrng, key=key + ":nuclei")
+            ctx.eq(f"w_{a_}(nucleus {k}) == {int(a_ == k)}", W[a_][npts + k], K(int(a_ == k)), (), replay=make_replay(natom, npts, order, "nuclei", elements), key=key + ":nuclei")
     # all evaluation routes, every segmentation of the points into consecutive atom segments
     for cuts in itertools.combinations_with_replacement(range(ntot + 1), natom - 1):
         ind = np.array([0, *cuts, ntot])
@@ -338,8 +347,56 @@ def job_main(ctx: Ctx, natom, npts, order, with_nuclei=True):
             _, _, second, fresh = q.result
             for j in range(npts):
                 ctx.eq(f"after an in-place edit of atcoords the same instance answers for the edited geometry (point {j})", second[j], fresh[j], (),
-                       replay=make_replay(natom, npts, order, "history"), key=key + ":history")
+                       replay=make_replay(natom, npts, order, "history", elements), key=key + ":history")
     bk.BeckeWeights._switch_func = staticmethod(real_switch)
+
+
+def job_lemma_radii(ctx: Ctx):
+    """finite table: for every atomic number 1..86, on both code paths (generate_weights and compute_atom_weight), the radius handed to the
+    size-adjustment is finite, positive, and is the element's own Bragg radius or - where that is undefined - that of Z-1, else Z-2; the same
+    with a user dictionary containing two consecutive undefined entries.  Ground enumeration (no symbolic input)."""
+    bk, hf = _mods()
+    import warnings
+    warnings.simplefilter("ignore")
+    ctx.encoded(bk.BeckeWeights.generate_weights, bk.BeckeWeights.compute_atom_weight, bk.BeckeWeights.__init__)
+    with unpatched(bk):
+        seen = []
+        real_alpha = bk.BeckeWeights.__dict__["_calculate_alpha"].__func__
+
+        def rec(radii, cutoff=0.45):
+            seen.append(np.array(radii, dtype=float))
+            return real_alpha(radii, cutoff)
+        bk.BeckeWeights._calculate_alpha = staticmethod(rec)
+        bad = {}
+        try:
+            for label, user in (("default table", None), ("user table with Z=30,31 undefined", {30: np.nan, 31: np.nan})):
+                b = bk.BeckeWeights(radii=user, order=3)
+                tab = dict(b._radii)
+                def want(z):
+                    for zz in (z, z - 1, z - 2):
+                        if zz >= 1 and np.isfinite(tab[zz]) and tab[zz] > 0:
+                            return tab[zz]
+                    return None
+                for z in range(1, 87):
+                    if want(z) is None:
+                        continue
+                    nums = np.array([z, 1])
+                    A = np.array([[0.0, 0.0, 0.0], [0.0, 0.0, 1.5]])
+                    P = np.array([[0.1, 0.2, 0.3]])
+                    for route, call in (("generate_weights", lambda: b.generate_weights(P, A, nums, select=[0], pt_ind=np.array([0, 1]))), ("compute_atom_weight", lambda: b.compute_atom_weight(P, A, nums, 0))):
+                        seen.clear()
+                        try:
+                            call()
+                        except Exception as ex:
+                            bad[f"{label}: Z={z} {route}"] = f"{type(ex).__name__}: {ex}"
+                            continue
+                        if not seen or not np.isfinite(seen[-1]).all() or abs(seen[-1][0] - want(z)) > 1e-12 or abs(seen[-1][1] - tab[1]) > 1e-12:
+                            bad[f"{label}: Z={z} {route}"] = dict(radii_used=(seen[-1].tolist() if seen else None), expected=[want(z), tab[1]])
+        finally:
+            bk.BeckeWeights._calculate_alpha = staticmethod(real_alpha)
+    (ctx.ok if not bad else ctx.fail)("radius used for every element 1..86 is finite: own Bragg radius, else that of Z-1, else Z-2 (both routes, default and user table)", detail=str(bad)[:400],
+                                      key="becke:radii", how="ground enumeration (not a solver obligation)", replay=(lambda m: (True, dict(list(bad.items())[:6]))), **({} if not bad else dict(model={})))
+    ctx.twins_sat += 1
 
 
 def job_hirshfeld(ctx: Ctx, natom):
@@ -402,9 +459,10 @@ def job_hirshfeld(ctx: Ctx, natom):
 def jobs(tier):
     js = [Job("lemma/switch", job_lemma_switch, 3 if tier == "quick" else 5), Job("lemma/alpha/2", job_lemma_alpha, 2), Job("lemma/alpha/3", job_lemma_alpha, 3), Job("lemma/nu", job_lemma_nu)]
     js += [Job("main/N=2/order=3", job_main, 2, 2, 3), Job("main/N=3/order=3", job_main, 3, 1, 3), Job("main/N=4/chunked", job_main, 4, 3, 1, False)]
+    js += [Job("lemma/radii", job_lemma_radii), Job("main/N=2/He-H/order=2", job_main, 2, 1, 2, True, [2, 1]), Job("main/N=2/Rn-O/order=1", job_main, 2, 1, 1, True, [86, 8])]
     js += [Job("hirshfeld/2", job_hirshfeld, 2), Job("hirshfeld/3", job_hirshfeld, 3)]
     if tier == "thorough":
-        js += [Job("main/N=2/order=5", job_main, 2, 3, 5), Job("main/N=3/2pts", job_main, 3, 2, 3), Job("main/N=5/chunked", job_main, 5, 3, 2, False), Job("lemma/alpha/4", job_lemma_alpha, 4)]
+        js += [Job("main/N=3/Ne-H-Ar/order=4", job_main, 3, 1, 4, True, [10, 1, 18]), Job("main/N=2/order=5", job_main, 2, 3, 5), Job("main/N=3/2pts", job_main, 3, 2, 3), Job("main/N=5/chunked", job_main, 5, 3, 2, False), Job("lemma/alpha/4", job_lemma_alpha, 4)]
     only = os.environ.get("SYMGRID_ONLY")
     return [j for j in js if not only or only in j.name]
 
@@ -415,7 +473,7 @@ def main():
     return harness.finish(
         PROP, res, t0, "DESIGN.md#c06",
         bounds=dict(atoms="2-4 (quick) / 2-5, element sets incl. He/Ne/Ar (undefined Bragg radius fallback)", points="1-3 symbolic points + the nuclei themselves as evaluation points",
-                    order="switching order 3 (1-5 in the lemma)", segmentations="every segmentation of the points into consecutive atom segments (incl. empty), chunking active from N=4"),
+                    order="switching orders 1, 2, 3 (quick) + 4, 5 (thorough) in the main jobs (one function symbol per order, so a route that drops the configured order is seen); 1-5 in the lemma", segmentations="every segmentation of the points into consecutive atom segments (incl. empty), chunking active from N=4"),
         outside=["the Euclidean realisation of the metric contract (triangle inequality of the real norm)", "rounding near mu = +-1", "0 <= w <= 1 for N >= 4 (z3 returns unknown; sum-to-one, nuclei values and route equality are decided up to N = 4/5)"],
         assumptions=["np.linalg.norm replaced by the metric contract (non-negative, symmetric, zero on identical vectors, positive between nuclei, triangle inequalities)",
                      "switching function cut: uninterpreted odd function with range [-1,1], strictly increasing, f(+-1) = +-1 - discharged on the real _switch_func by lemma/switch",
